@@ -45,8 +45,9 @@ func (v *Vue) propagateTemplateAttributes(ctx VueContext, node *html.Node) {
 		return
 	}
 
-	// If this node is a template, propagate its bound attributes
-	if node.Type == html.ElementNode && node.Data == "template" {
+	// If this node is a template, propagate its bound attributes. The bound attributes of an
+	// include tag are props of the component, not variables of the loop body.
+	if node.Type == html.ElementNode && node.Data == "template" && !helpers.HasAttr(node, "include") {
 		for _, attr := range node.Attr {
 			boundName := attr.Key
 			if strings.HasPrefix(boundName, ":") {
